@@ -4,6 +4,9 @@ import vcommon as vc
 PROPS = {}
 
 PROPS["C16"] = dict(
+    # the compared observables are exactly what the property fixes (verdict, unifier up to renaming, resolved answer, order, call log):
+    # a disagreement with the proved model on a case is a failing input
+    mismatch_is_input=True,
     model="SexprStruct.v",
     harness=[dict(name="main", n_quick=1500, n_thorough=1500, shards_quick=1, shards_thorough=12)],
     trusted=["sort.Sort (stdlib) is trusted: the harness checks its output to be a Compare-sorted permutation, "
@@ -16,6 +19,9 @@ PROPS["C16"] = dict(
 )
 
 PROPS["C01"] = dict(
+    # the compared observables are exactly what the property fixes (verdict, unifier up to renaming, resolved answer, order, call log):
+    # a disagreement with the proved model on a case is a failing input
+    mismatch_is_input=True,
     model="Unify.v",
     harness=[dict(name="main", n_quick=2500, n_thorough=2500, shards_quick=1, shards_thorough=12)],
     trusted=["symbols/strings are interned injectively to numbers by the harness; variables are identified by Index alone (as assv/Variable.Equal do)",
@@ -43,6 +49,9 @@ _GOMINI_TRUSTED = ["Go values are encoded as terms by the harness (variables by 
                    "the encoding is injective (C04_encoding_faithful) and the harness reads bindings back through the exported API (CastVar/Get)",
                    "gomini's concurrent engine (goroutines, channels, WaitGroup, context) is Go runtime: modelled, not verified"]
 PROPS["C04"] = dict(
+    # the compared observables are exactly what the property fixes (verdict, unifier up to renaming, resolved answer, order, call log):
+    # a disagreement with the proved model on a case is a failing input
+    mismatch_is_input=True,
     model="GCore.v (transcription of gomini/unify.go over Reflect.v) + GVal.v (injective encoding; gunify = unify on encodings)",
     harness=[dict(name="main", n_quick=1500, n_thorough=2500, shards_quick=1, shards_thorough=10)],
     trusted=_GOMINI_TRUSTED + ["the harness's independent reference unifier (oracle for verdict / most-general / content independence)"],
@@ -52,6 +61,9 @@ PROPS["C04"] = dict(
 )
 
 PROPS["C18"] = dict(
+    # the compared observables are exactly what the property fixes (verdict, unifier up to renaming, resolved answer, order, call log):
+    # a disagreement with the proved model on a case is a failing input
+    mismatch_is_input=True,
     model="Reflect.v",
     harness=[dict(name="main", n_quick=2000, n_thorough=4000, shards_quick=1, shards_thorough=8)],
     trusted=["Go values of the harness's type family are encoded as the model's gval by a type switch (no reflect); Go map iteration order is random: map laws are stated up to permutation",
@@ -71,6 +83,9 @@ PROPS["C05"] = dict(
 
 import gens
 PROPS["C08"] = dict(
+    # the compared observables are exactly what the property fixes (verdict, unifier up to renaming, resolved answer, order, call log):
+    # a disagreement with the proved model on a case is a failing input
+    mismatch_is_input=True,
     model="Reify.v; GCore.v (grewrite: transcription of gomini rewrite over Reflect.v)",
     harness=[dict(name="main", n_quick=1500, n_thorough=2500, shards_quick=1, shards_thorough=8)],
     trusted=_PROG_TRUSTED + _GOMINI_TRUSTED,
